@@ -385,6 +385,26 @@ func checkC11(c C11Case, r *Rec) *Violation {
 		}
 	}
 
+	// the one-shot helper over the same layout (handed over with ExtendConf): the bindings map also
+	// holds the extra names the layout does not know
+	{
+		names := c.Names
+		if len(names) > 24 {
+			names = names[:24]
+		}
+		src := "(c_tuple " + strings.Join(names, " ") + ")"
+		o := Safe(func() (eval.Value, error) { return eval.Eval(src, vals, eval.ExtendConf(cc)) })
+		got, ok := o.Val.([]eval.Value)
+		if o.Panic != nil || o.Err != nil || !ok || len(got) != len(names) {
+			return Violf("C11: one-shot eval.Eval(%s, bindings, ExtendConf(layout)) fails: %v\n%s", clip(src, 200), o, describe())
+		}
+		for j, n := range names {
+			if !equalNormalised(got[j], want[j]) {
+				return Violf("C11: one-shot eval.Eval over the layout: variable %q evaluates to %v (%T) but is bound to %v (%T), normalised %v\nbindings also hold %d names the layout does not know\n%s", n, got[j], got[j], c.Vals[j].X, c.Vals[j].X, want[j], len(c.Extra), describe())
+			}
+		}
+	}
+
 	// evidence
 	r.Class("fetcher:" + fetcher)
 	special := false
@@ -436,7 +456,7 @@ func equalNormalised(got, want interface{}) bool {
 
 var propC11 = Prop[C11Case]{
 	ID:    "C11",
-	Rule:  "registration histories: 1..40 (sometimes 100..126) names, a pre-populated key map with distinct keys from {-32768, -3..3, 250..260, 32760..32767, random int16, small}, then GetOrRegisterKey / RegVarAndOp batches / repeated requests in a drawn order, optionally undefined-variable mode with names left unregistered; bindings of every raw type the documentation lists (int, int8..int32, uint8..uint64, int64, []int, []int32, []int64, []string, time.Time, Duration, bool, string) at extremes. Oracle: after every step the key map is injective and no earlier assignment changed; (c_tuple v0 .. vn) and single-variable programs evaluate, through NewCtxFromVars (slice- or map-backed), to the harness's own normalisation of the bound values. Non-trivial = the final layout has a key < 0, = 0, = 255, = 256 or > 256, or GetOrRegisterKey had to fill a gap; distinct by the whole history",
+	Rule:  "registration histories: 1..40 (sometimes 100..126) names, a pre-populated key map with distinct keys from {-32768, -3..3, 250..260, 32760..32767, random int16, small}, then GetOrRegisterKey / RegVarAndOp batches / repeated requests in a drawn order, optionally undefined-variable mode with names left unregistered; bindings of every raw type the documentation lists (int, int8..int32, uint8..uint64, int64, []int, []int32, []int64, []string, time.Time, Duration, bool, string) at extremes. Oracle: after every step the key map is injective and no earlier assignment changed; (c_tuple v0 .. vn) and single-variable programs evaluate, through NewCtxFromVars (slice- or map-backed) and through the one-shot eval.Eval over the same layout, to the harness's own normalisation of the bound values. Non-trivial = the final layout has a key < 0, = 0, = 255, = 256 or > 256, or GetOrRegisterKey had to fill a gap; distinct by the whole history",
 	Gen:   genC11,
 	Check: checkC11,
 }
